@@ -510,7 +510,8 @@ func (s *state) visitCall(node *ast.CallNode) {
 				dataExpr += param.Key + ": " + s.block(param.Value)
 			case *ast.CallParamContentNode:
 				var oldBufferName = s.bufferName
-				s.bufferName = s.scope.makevar("param")
+				// (a generated name only: it must not bring a variable "param" into scope)
+				s.bufferName = s.scope.newname("param")
 				s.jsln("var ", s.bufferName, " = '';")
 				s.walk(param.Content)
 				dataExpr += param.Key + ": " + s.bufferName
